@@ -238,8 +238,11 @@ class AsyncTLSStreamTransport(AsyncStreamTransport):
     async def send_all_from_iterable(self, iterable_of_data: Iterable[bytes | bytearray | memoryview]) -> None:
         if self.__closing:
             raise _utils.error_from_errno(errno.ECONNABORTED)
-        self._data_deque.extend(map(memoryview, iterable_of_data))
+        # Consume the iterable first: if it raises, nothing of it must stay queued in front of the next data to send.
+        buffers = list(map(memoryview, iterable_of_data))
         del iterable_of_data
+        self._data_deque.extend(buffers)
+        del buffers
         return await self.__flush_data_to_send()
 
     async def __flush_data_to_send(self) -> None:
